@@ -655,7 +655,23 @@ func (in *Interp) callFunc(fn *VFunc, args []Value, callPos token.Pos) Value {
 			in.active[fn.Decl] = append(in.active[fn.Decl], key)
 			defer func() { in.active[fn.Decl] = in.active[fn.Decl][:len(in.active[fn.Decl])-1] }()
 		}
-		if in.stack[fn.Decl] >= 2 {
+		// the recursion cut is for emitters that descend the structure of a type (genStatement <-> genField): a helper that
+		// is re-entered without any type among its arguments (block(opening, body func()) nested three deep) is not recursing
+		// over the input, its depth is the depth of the generator's own text; it is only bounded by a generous limit
+		typeDriven := false
+		for _, a := range args {
+			switch x := a.(type) {
+			case *VOpaque:
+				typeDriven = typeDriven || x != nil
+			case *VList:
+				for _, e := range x.Elems {
+					if _, isOp := e.(*VOpaque); isOp {
+						typeDriven = true
+					}
+				}
+			}
+		}
+		if (typeDriven && in.stack[fn.Decl] >= 2) || in.stack[fn.Decl] >= 24 {
 			// recursion cut: statement emitters leave a marker line; string-returning emitters return an EXPR hole
 			sig := fn.Pkg.TypesInfo.Defs[fn.Decl.Name].Type().(*types.Signature)
 			in.recCut = true
@@ -1772,6 +1788,14 @@ func (in *Interp) selectFrom(fr *Frame, base Value, sel *types.Selection, x *ast
 		return &VOpaque{Origin: b.Origin + "." + x.Sel.Name, Kind: "method", recv: b, meth: x.Sel.Name}
 	case VNil:
 		return &VOpaque{Origin: "nil." + x.Sel.Name}
+	}
+	// a method of a defined type of the generator whose values are plain (type resultCount int; type names []string)
+	if sel.Kind() == types.MethodVal {
+		if fn, ok := sel.Obj().(*types.Func); ok {
+			if d, ok := in.decls[fn]; ok {
+				return &VFunc{Decl: d.Decl, Pkg: d.Pkg, Recv: base}
+			}
+		}
 	}
 	in.fail("select from %T (%s) at %v", base, x.Sel.Name, fr.pkg.Fset.Position(x.Pos()))
 	return nil
